@@ -63,6 +63,7 @@ fn main() {
         "C09" => c09::cases(&mut rng, count, tier),
         "C10" => c10::cases(&mut rng, count, tier),
         "C11" => c11::cases(&mut rng, count, tier),
+        "C11d" => c11::cases_deep(&mut rng, count, tier),
         "C12" => c12::cases(&mut rng, count, tier),
         "C13" => c13::cases(&mut rng, count, tier),
         "C14" => c14::cases(&mut rng, count, tier),
